@@ -235,16 +235,284 @@ pub fn run(s: &mut Src, ctx: &mut Ctx) -> Verdict {
     Verdict::Pass
 }
 
+
+// ---------------------------------------------------------------------------------------------------------------
+// part `writers`: rules whose action calls a registered function that writes a fact; readers of that fact sit at a
+// strictly lower salience, so the one-by-one result is deterministic and the join between levels is observable
+// ---------------------------------------------------------------------------------------------------------------
+
+const NFLAGS: usize = 3;
+
+fn flag_path(k: usize) -> String {
+    format!("W.k{}", k)
+}
+
+struct WCase {
+    base: Case,
+    /// rule index -> flag written by its action (the action is `Custom{mark<k>}`)
+    writer: BTreeMap<usize, usize>,
+}
+
+fn gen_wcase(s: &mut Src) -> WCase {
+    let cfg = GenCfg { absent: false, arrays: false, floats: false, strings: true, extremes: false, nested: true, max_depth: 3 };
+    let store = gen_store(s, &cfg);
+    set_store_context(&store);
+    let levels = 2 + s.below(3); // 2..4 salience levels, level index 0 = lowest
+    let n = 3 + s.below(14);
+    // the lowest level at which flag k is written (readers must sit strictly below it)
+    let mut lowest_writer: [usize; NFLAGS] = [usize::MAX; NFLAGS];
+    let mut plan: Vec<(usize, Option<usize>)> = Vec::new(); // (level, writer flag)
+    for _ in 0..n {
+        // upper levels are crowded so that they are handed to worker threads
+        let level = if s.chance(2, 3) { levels - 1 - s.below(2.min(levels - 1)) } else { s.below(levels) };
+        let w = if level >= 1 && s.chance(1, 3) { Some(s.below(NFLAGS)) } else { None };
+        if let Some(k) = w {
+            lowest_writer[k] = lowest_writer[k].min(level);
+        }
+        plan.push((level, w));
+    }
+    let mut rules = Vec::new();
+    let mut enabled = Vec::new();
+    let mut writer = BTreeMap::new();
+    for (i, (level, w)) in plan.iter().enumerate() {
+        let mut cond = if s.chance(1, 3) {
+            // mostly-true conditions keep writers firing
+            Cond::Atom(Atom { lhs: Lhs::Field("A.x".into()), op: Op::Eq, rhs: Term::Field("A.x".into()), tight: false })
+        } else {
+            gen_cond(s, &cfg, 1)
+        };
+        strip_lhs_arith(&mut cond);
+        // a reader: some flag whose every writer sits strictly above this level
+        let readable: Vec<usize> = (0..NFLAGS).filter(|k| lowest_writer[*k] != usize::MAX && lowest_writer[*k] > *level).collect();
+        if !readable.is_empty() && s.chance(2, 3) {
+            let k = readable[s.below(readable.len())];
+            let positive = !s.chance(1, 4);
+            let flag = Cond::Atom(Atom { lhs: Lhs::Field(flag_path(k)), op: Op::Eq, rhs: Term::Lit(V::Bool(true)), tight: false });
+            let flag = if positive { flag } else { Cond::Not(Box::new(flag), false) };
+            cond = match s.below(3) {
+                0 => flag,
+                1 => Cond::And(Box::new(cond), Box::new(flag)),
+                _ => Cond::Or(Box::new(flag), Box::new(cond)),
+            };
+        }
+        if let Some(k) = w {
+            writer.insert(i, *k);
+        }
+        rules.push(RuleAst { name: format!("R{}", i), salience: (*level as i32) * 10, no_loop: false, cond, actions: vec![] });
+        enabled.push(!s.chance(1, 10));
+    }
+    let max_threads = 1 + s.below(8);
+    let min_rules = 1 + s.below(3);
+    let parallel = !s.chance(1, 8);
+    WCase { base: Case { rules, enabled, store, max_threads, min_rules, parallel }, writer }
+}
+
+fn register_marks(e: &mut ParallelRuleEngine) {
+    for k in 0..NFLAGS {
+        let path = flag_path(k);
+        e.register_function(&format!("mark{}", k), move |_args, facts| {
+            facts.set(&path, rust_rule_engine::Value::Boolean(true));
+            Ok(rust_rule_engine::Value::Null)
+        });
+    }
+}
+
+pub fn run_writers(s: &mut Src, ctx: &mut Ctx) -> Verdict {
+    HOOK.call_once(|| install_sched_hook(std::env::var("VERIF_SEED").ok().and_then(|s| s.parse::<i64>().ok()).unwrap_or(1) as u64));
+    let w = gen_wcase(s);
+    let c = &w.base;
+    if probe_only() {
+        return Verdict::Pass;
+    }
+    ctx.describe(|| {
+        format!(
+            "max_threads={} min_rules_per_thread={} parallel={} enabled={:?} writers(rule->flag)={:?} (action of a writer: registered function mark<k> sets {} = true)\n{}",
+            c.max_threads,
+            c.min_rules,
+            c.parallel,
+            c.enabled,
+            w.writer,
+            flag_path(0).replace('0', "<k>"),
+            describe(&c.rules, &c.store)
+        )
+    });
+    let kb = KnowledgeBase::new("kb");
+    for (i, (r, en)) in c.rules.iter().zip(c.enabled.iter()).enumerate() {
+        let mut rule = rule_to_engine(r);
+        rule.enabled = *en;
+        if let Some(k) = w.writer.get(&i) {
+            rule.actions = vec![rust_rule_engine::types::ActionType::Custom { action_type: format!("mark{}", k), params: std::collections::HashMap::new() }];
+        }
+        if kb.add_rule(rule).is_err() {
+            return Verdict::fail("add-rule-error", "");
+        }
+    }
+    let n_enabled = c.enabled.iter().filter(|e| **e).count();
+    // model: levels from the highest salience down; verdicts by REF on the evolving store; the flags written by the
+    // writers that fired in a level are visible from the next level on
+    let mut model = c.store.clone();
+    let mut model_map: BTreeMap<String, Option<bool>> = BTreeMap::new();
+    let mut sal: Vec<i32> = c.rules.iter().map(|r| r.salience).collect();
+    sal.sort();
+    sal.dedup();
+    let mut model_defined = true;
+    let mut reader_flipped = false;
+    for lv in sal.iter().rev() {
+        let mut writes = Vec::new();
+        for (i, r) in c.rules.iter().enumerate() {
+            if r.salience != *lv || !c.enabled[i] {
+                continue;
+            }
+            let v = match eval_cond(&r.cond, &model) {
+                T3::True => Some(true),
+                T3::False => Some(false),
+                T3::Undef(_) => None,
+            };
+            if v.is_some() && !only_flags_absent(&r.cond, &model) {
+                // a left-hand field other than a flag is absent: outside REF's comparison (as in part `random`)
+                model_map.insert(r.name.clone(), None);
+            } else {
+                model_map.insert(r.name.clone(), v);
+            }
+            if model_map[&r.name].is_some() && eval_cond(&r.cond, &c.store) != eval_cond(&r.cond, &model) {
+                reader_flipped = true;
+            }
+            if let Some(k) = w.writer.get(&i) {
+                match model_map[&r.name] {
+                    Some(true) => writes.push(*k),
+                    Some(false) => {}
+                    None => model_defined = false,
+                }
+            }
+        }
+        if !model_defined {
+            break;
+        }
+        for k in writes {
+            model.write(&flag_path(k), V::Bool(true));
+        }
+    }
+    // sequential reference path of the same engine, on fresh facts
+    let mut seq_engine = ParallelRuleEngine::new(ParallelConfig { enabled: false, max_threads: 1, min_rules_per_thread: 1, dependency_analysis: false });
+    register_marks(&mut seq_engine);
+    let facts = c.store.to_facts();
+    let seq = match catch(|| seq_engine.execute_parallel(&kb, &facts, false)) {
+        Ok(Ok(r)) => r,
+        Ok(Err(e)) => return Verdict::fail("sequential-error", format!("{}", e)),
+        Err(p) => return Verdict::fail(format!("panic@{}", p.split(": ").next().unwrap_or("?")), p),
+    };
+    let mut seq_map: BTreeMap<String, bool> = BTreeMap::new();
+    for cx in &seq.execution_contexts {
+        if seq_map.insert(cx.rule.name.clone(), cx.fired).is_some() {
+            return Verdict::fail("sequential-duplicate-context", format!("rule {} reported twice by the sequential path", cx.rule.name));
+        }
+    }
+    if seq_map.len() != n_enabled || seq.total_rules_evaluated != n_enabled {
+        return Verdict::fail("sequential-context-count", format!("{} contexts / evaluated={} for {} enabled rules", seq_map.len(), seq.total_rules_evaluated, n_enabled));
+    }
+    let mut ref_checked = 0;
+    if model_defined {
+        for (name, v) in &model_map {
+            if let Some(v) = v {
+                ref_checked += 1;
+                if seq_map.get(name) != Some(v) {
+                    return Verdict::fail("sequential-vs-ref:writers", format!("rule {}: sequential path fired={:?} but the level-by-level model says {}", name, seq_map.get(name), v));
+                }
+            }
+        }
+    }
+    let seq_flags: Vec<bool> = (0..NFLAGS).map(|k| facts.get(&flag_path(k)).is_some()).collect();
+    let reps = if ctx.thorough { 40 } else { 10 };
+    let mut par_engine = ParallelRuleEngine::new(ParallelConfig { enabled: c.parallel, max_threads: c.max_threads, min_rules_per_thread: c.min_rules, dependency_analysis: false });
+    register_marks(&mut par_engine);
+    for rep in 0..reps {
+        let facts = c.store.to_facts();
+        let par = match catch(|| par_engine.execute_parallel(&kb, &facts, false)) {
+            Ok(Ok(r)) => r,
+            Ok(Err(e)) => return Verdict::fail("parallel-error", format!("rep {}: {}", rep, e)),
+            Err(p) => return Verdict::fail(format!("panic@{}", p.split(": ").next().unwrap_or("?")), p),
+        };
+        let mut par_map: BTreeMap<String, bool> = BTreeMap::new();
+        for cx in &par.execution_contexts {
+            if par_map.insert(cx.rule.name.clone(), cx.fired).is_some() {
+                return Verdict::fail("duplicate-context", format!("rep {}: rule {} reported twice", rep, cx.rule.name));
+            }
+        }
+        if par_map != seq_map {
+            let d: Vec<String> = seq_map.iter().filter(|(k, v)| par_map.get(*k) != Some(v)).map(|(k, v)| format!("{}: sequential fired={} parallel {:?}", k, v, par_map.get(k))).collect();
+            let extra: Vec<&String> = par_map.keys().filter(|k| !seq_map.contains_key(*k)).collect();
+            return Verdict::fail("fired-set-differs:writers", format!("rep {}: {:?} extra={:?}", rep, d, extra));
+        }
+        if par.total_rules_evaluated != seq.total_rules_evaluated || par.total_rules_fired != seq.total_rules_fired {
+            return Verdict::fail(
+                "counters-differ",
+                format!("rep {}: parallel evaluated={} fired={} vs sequential evaluated={} fired={}", rep, par.total_rules_evaluated, par.total_rules_fired, seq.total_rules_evaluated, seq.total_rules_fired),
+            );
+        }
+        let par_flags: Vec<bool> = (0..NFLAGS).map(|k| facts.get(&flag_path(k)).is_some()).collect();
+        if par_flags != seq_flags {
+            return Verdict::fail("written-facts-differ", format!("rep {}: flags written into the caller's facts: parallel {:?}, sequential {:?}", rep, par_flags, seq_flags));
+        }
+    }
+    // classification
+    let mut by_level: BTreeMap<i32, usize> = BTreeMap::new();
+    for (r, en) in c.rules.iter().zip(c.enabled.iter()) {
+        if *en {
+            *by_level.entry(r.salience).or_default() += 1;
+        }
+    }
+    // a writer that fired in a level that is handed to worker threads
+    let mut threaded_writer = false;
+    for (i, _k) in &w.writer {
+        let r = &c.rules[*i];
+        if c.enabled[*i] && seq_map.get(&r.name) == Some(&true) {
+            let l = by_level[&r.salience];
+            if c.parallel && l >= 2 && l >= c.min_rules {
+                threaded_writer = true;
+            }
+        }
+    }
+    if ref_checked > 0 {
+        ctx.label("ref-checked");
+    }
+    if threaded_writer {
+        ctx.label("writer-fired-in-threaded-level");
+    }
+    if reader_flipped {
+        ctx.label("reader-verdict-depends-on-written-flag");
+    }
+    if threaded_writer && reader_flipped {
+        ctx.nontrivial(hash_of(&(hash_rules(&c.rules, &c.store), c.max_threads, c.min_rules, c.parallel, &c.enabled, format!("{:?}", w.writer))));
+    }
+    Verdict::Pass
+}
+
+/// true when every absent left-hand field of the condition is a flag (W.k*)
+fn only_flags_absent(c: &Cond, st: &Store) -> bool {
+    let mut ok = true;
+    c.for_each_atom(&mut |a| {
+        if let Lhs::Field(p) = &a.lhs {
+            if !p.starts_with("W.k") && !matches!(st.read(p), Ok(Some(_))) {
+                ok = false;
+            }
+        }
+    });
+    ok
+}
+
 pub fn property() -> Property {
     Property {
         id: "C19",
         level: "exploration",
-        rule: "generated: 1-24 typed-core rules (field-on-the-left atoms, trees to depth 3) with 1-4 salience levels (ties), ~1/8 disabled, stores with nested objects; max_threads 1..16, min_rules_per_thread 1..4, parallelism on (5/6) and off; each configuration executed 12x (quick) / 60x (thorough) with the H5 schedule-point hook yielding/spinning/sleeping pseudo-randomly inside the worker loop. Oracle: the call returns (monitor watchdog); exactly one execution context per enabled rule; the (rule, fired) map and both counters equal the sequential path of the same engine (enabled=false); total_rules_fired equals the number of fired contexts; the sequential verdict equals REF where REF is defined and all left-hand fields are present. Non-trivial: >= 2 salience levels and a level that is split into >= 2 chunks containing both firing and non-firing rules; distinct by (program, store, config).",
+        rule: "generated: 1-24 typed-core rules (field-on-the-left atoms, trees to depth 3) with 1-4 salience levels (ties), ~1/8 disabled, stores with nested objects; max_threads 1..16, min_rules_per_thread 1..4, parallelism on (5/6) and off; each configuration executed 12x (quick) / 60x (thorough) with the H5 schedule-point hook yielding/spinning/sleeping pseudo-randomly inside the worker loop. Oracle: the call returns (monitor watchdog); exactly one execution context per enabled rule; the (rule, fired) map and both counters equal the sequential path of the same engine (enabled=false); total_rules_fired equals the number of fired contexts; the sequential verdict equals REF where REF is defined and all left-hand fields are present. Non-trivial: >= 2 salience levels and a level that is split into >= 2 chunks containing both firing and non-firing rules; distinct by (program, store, config). Part `writers`: 3-16 rules on 2-4 levels of which about a third (never on the lowest level) have an action calling a registered function mark<k> that writes the fact W.k<k> = true, and rules at a STRICTLY lower salience than every writer of a flag read it (positively or negated, alone or and/or-ed with a generated condition); fresh facts for every execution; 10x/40x per configuration; oracle as above plus: the flags found in the caller's facts after the call equal the sequential path's, and the sequential verdicts equal a level-by-level model (REF on a store that receives the fired writers' flags after each level). Non-trivial there: a writer fired inside a level that is handed to worker threads and some judged rule's verdict differs between the initial store and the store it was evaluated on.",
         assumptions: vec![
             "thread schedules are sampled by the OS plus the yield hook, not enumerated (DESIGN.md §8)".into(),
-            "no custom functions registered, so actions do not change facts (by reading execute_action_parallel)".into(),
+            "part random registers no custom functions, so its actions do not change facts (by reading execute_action_parallel); part writers changes facts only through registered functions whose readers sit at a strictly lower salience than every writer, so the one-by-one result does not depend on the order inside a level".into(),
         ],
-        parts: vec![Part { name: "random", run, quick: Budget::Random { cases: 2_000, bytes: 2500 }, thorough: Budget::Random { cases: 30_000, bytes: 2500 }, min_nontrivial_pct: 25 }],
+        parts: vec![
+            Part { name: "random", run, quick: Budget::Random { cases: 2_000, bytes: 2500 }, thorough: Budget::Random { cases: 30_000, bytes: 2500 }, min_nontrivial_pct: 25 },
+            Part { name: "writers", run: run_writers, quick: Budget::Random { cases: 3_000, bytes: 1500 }, thorough: Budget::Random { cases: 40_000, bytes: 1500 }, min_nontrivial_pct: 10 },
+        ],
         watchdog: true,
         replay_reps: 10,
     }
